@@ -49,6 +49,24 @@ Definition bind {S A B} (m : res S A) (f : A -> S -> res S B) : res S B :=
 (* "was the call there at all": the call is made iff the Go source has it *)
 Definition called (ncalls : Z) : bool := 0 <? ncalls.
 
+(* Statement ORDER.  Where the order of neighbouring statements matters (pointer surgery), each
+   statement is a function on (local variables, state) paired with its source ordinal
+   (Gen: ord:assign / ord:call, regenerated from the Go source); [in_order] sorts them by ordinal
+   and [seq_env] executes them one after the other.  Swapping two statements in the Go source
+   therefore swaps them in the model. *)
+Fixpoint insert_by {A} (x : Z * A) (l : list (Z * A)) : list (Z * A) :=
+  match l with
+  | [] => [x]
+  | y :: r => if fst x <? fst y then x :: l else y :: insert_by x r
+  end.
+Definition in_order {A} (l : list (Z * A)) : list A := map snd (fold_right insert_by [] l).
+
+Fixpoint seq_env {S E} (ss : list (E -> S -> res S E)) (e : E) (s : S) : res S E :=
+  match ss with
+  | [] => Ok e s
+  | f :: r => bind (f e s) (fun e' s' => seq_env r e' s')
+  end.
+
 Section Mlink.
 Variable T : Type.
 Variable zero : T.          (* Go's zero value of T *)
@@ -79,17 +97,34 @@ Definition set_pred (p : nat) (s : cst) : res cst unit := Ok tt (fst s, p).
 
 (* ---- mlink.go ---- *)
 
-(* func (e *entry[T]) invalidate() { for e != nil { next := e.link; e.link = e; e = next } } *)
+(* func (e *entry[T]) invalidate() { for e != nil { next := e.link; e.link = e; e = next } }
+   The loop body's locals are (e, next); its three statements run in source order. *)
+Definition ienv := (link * link)%type.
+(* next := e.link *)
+Definition inv_next (en : ienv) (s : cst) : res cst ienv :=
+  bind (deref (fst en) s) (fun a s =>
+  bind (load a s) (fun c s =>
+  Ok (fst en, dec (MlinkFacts.invalidate_next (enc (snd c)))) s)).
+(* e.link = e *)
+Definition inv_self (en : ienv) (s : cst) : res cst ienv :=
+  bind (deref (fst en) s) (fun a s =>
+  bind (load a s) (fun c s =>
+  bind (store a (fst c, dec (MlinkFacts.invalidate_newlink (enc (fst en)))) s) (fun _ s =>
+  Ok en s))).
+(* e = next *)
+Definition inv_adv (en : ienv) (s : cst) : res cst ienv :=
+  Ok (dec (MlinkFacts.invalidate_adv (enc (snd en))), snd en) s.
+
+Definition inv_body : list (ienv -> cst -> res cst ienv) :=
+  in_order [(MlinkFacts.invalidate_next_ord, inv_next); (MlinkFacts.invalidate_self_ord, inv_self);
+            (MlinkFacts.invalidate_adv_ord, inv_adv)].
+
 Fixpoint invalidate (fuel : nat) (e : link) (s : cst) : res cst unit :=
   match fuel with
   | O => OutOfFuel
   | S f =>
     if MlinkFacts.invalidate_cond (enc e) null then
-      bind (deref e s) (fun a s =>
-      bind (load a s) (fun c s =>
-      let next := dec (MlinkFacts.invalidate_next (enc (snd c))) in
-      bind (store a (fst c, dec (MlinkFacts.invalidate_newlink (enc e))) s) (fun _ s =>
-      invalidate f (dec (MlinkFacts.invalidate_adv (enc next))) s)))
+      bind (seq_env inv_body (e, Nil) s) (fun en s => invalidate f (fst en) s)
     else Ok tt s
   end.
 
@@ -165,29 +200,61 @@ Fixpoint cur_add (vs : list T) (s : cst) : res cst unit :=
 
 (* if c.AtEnd() { return zero }
    val := c.pred.link.X; next := c.pred.link.link
-   c.pred.link.link = c.pred.link; c.pred.link = next; return val *)
-Definition cur_remove (s : cst) : res cst T :=
-  bind (cur_at_end s) (fun ae s =>
-  if MlinkList.remove_atend ae then Ok zero s else
+   c.pred.link.link = c.pred.link; c.pred.link = next; return val
+   The locals are (val, next); the four statements run in source order, each evaluating
+   c.pred.link on the heap as it is at that moment. *)
+Definition renv := (T * link)%type.
+(* val := c.pred.link.X *)
+Definition rm_val (e : renv) (s : cst) : res cst renv :=
   bind (load (snd s) s) (fun cp s =>
   bind (deref (snd cp) s) (fun t s =>
   bind (load t s) (fun ct s =>
-  let val := fst ct in
-  let next := dec (MlinkList.remove_next (enc (snd ct))) in
+  Ok (fst ct, snd e) s))).
+(* next := c.pred.link.link *)
+Definition rm_next (e : renv) (s : cst) : res cst renv :=
+  bind (load (snd s) s) (fun cp s =>
+  bind (deref (snd cp) s) (fun t s =>
+  bind (load t s) (fun ct s =>
+  Ok (fst e, dec (MlinkList.remove_next (enc (snd ct)))) s))).
+(* c.pred.link.link = c.pred.link *)
+Definition rm_self (e : renv) (s : cst) : res cst renv :=
+  bind (load (snd s) s) (fun cp s =>
+  bind (deref (snd cp) s) (fun t s =>
+  bind (load t s) (fun ct s =>
   bind (store t (fst ct, dec (MlinkList.remove_selflink (enc (snd cp)))) s) (fun _ s =>
-  bind (load (snd s) s) (fun cp' s =>
-  bind (store (snd s) (fst cp', dec (MlinkList.remove_newlink (enc next))) s) (fun _ s =>
-  Ok val s))))))).
+  Ok e s)))).
+(* c.pred.link = next *)
+Definition rm_new (e : renv) (s : cst) : res cst renv :=
+  bind (load (snd s) s) (fun cp s =>
+  bind (store (snd s) (fst cp, dec (MlinkList.remove_newlink (enc (snd e)))) s) (fun _ s =>
+  Ok e s)).
+
+Definition rm_body : list (renv -> cst -> res cst renv) :=
+  in_order [(MlinkList.remove_val_ord, rm_val); (MlinkList.remove_next_ord, rm_next);
+            (MlinkList.remove_self_ord, rm_self); (MlinkList.remove_new_ord, rm_new)].
+
+Definition cur_remove (s : cst) : res cst T :=
+  bind (cur_at_end s) (fun ae s =>
+  if MlinkList.remove_atend ae then Ok zero s else
+  bind (seq_env rm_body (zero, Nil) s) (fun e s => Ok (fst e) s)).
 
 (* c.pred.checkValid().link.invalidate(); c.pred.link = nil
    [nchk] is the number of checkValid calls in the method: MlinkList.truncate_ncalls_check for the
    working tree; 0 is the code before repair e389bb4 (F7). *)
-Definition cur_truncate_gen (nchk : Z) (s : cst) : res cst unit :=
+(* c.pred.checkValid().link.invalidate() *)
+Definition tr_inval (nchk : Z) (_ : unit) (s : cst) : res cst unit :=
   bind (checked nchk s) (fun e s =>
   bind (load e s) (fun c s =>
-  bind (if called MlinkList.truncate_ncalls_invalidate then invalidate (S (length (fst s))) (snd c) s else Ok tt s) (fun _ s =>
+  if called MlinkList.truncate_ncalls_invalidate then invalidate (S (length (fst s))) (snd c) s else Ok tt s)).
+(* c.pred.link = nil *)
+Definition tr_nil (_ : unit) (s : cst) : res cst unit :=
   bind (load (snd s) s) (fun cp s =>
-  store (snd s) (fst cp, dec (MlinkList.truncate_newlink null)) s)))).
+  store (snd s) (fst cp, dec (MlinkList.truncate_newlink null)) s).
+
+Definition tr_body (nchk : Z) : list (unit -> cst -> res cst unit) :=
+  in_order [(MlinkList.truncate_inval_ord, tr_inval nchk); (MlinkList.truncate_nil_ord, tr_nil)].
+
+Definition cur_truncate_gen (nchk : Z) (s : cst) : res cst unit := seq_env (tr_body nchk) tt s.
 
 Definition cur_truncate := cur_truncate_gen MlinkList.truncate_ncalls_check.
 Definition cur_truncate_pinned := cur_truncate_gen 0.
@@ -201,11 +268,17 @@ Definition list_is_empty (h : heap) : res cst bool :=
   bind (load O (cfirst h)) (fun c s => Ok (MlinkList.isempty_ret (enc (snd c)) null) s).
 
 (* lst.first.link.invalidate(); lst.first.link = nil *)
-Definition list_clear (h : heap) : res cst unit :=
-  bind (load O (cfirst h)) (fun c s =>
-  bind (if called MlinkList.clear_ncalls_invalidate then invalidate (S (length (fst s))) (snd c) s else Ok tt s) (fun _ s =>
+Definition cl_inval (_ : unit) (s : cst) : res cst unit :=      (* lst.first.link.invalidate() *)
+  bind (load O s) (fun c s =>
+  if called MlinkList.clear_ncalls_invalidate then invalidate (S (length (fst s))) (snd c) s else Ok tt s).
+Definition cl_nil (_ : unit) (s : cst) : res cst unit :=        (* lst.first.link = nil *)
   bind (load O s) (fun c' s =>
-  store O (fst c', dec (MlinkList.clear_newlink null)) s))).
+  store O (fst c', dec (MlinkList.clear_newlink null)) s).
+
+Definition cl_body : list (unit -> cst -> res cst unit) :=
+  in_order [(MlinkList.clear_inval_ord, cl_inval); (MlinkList.clear_nil_ord, cl_nil)].
+
+Definition list_clear (h : heap) : res cst unit := seq_env cl_body tt (cfirst h).
 
 (* for ; !cur.AtEnd(); cur.Next() { if n == 0 { break }; n-- } *)
 Fixpoint at_loop (fuel : nat) (n : Z) (s : cst) : res cst unit :=
@@ -452,7 +525,21 @@ Definition q_add (v : T) (q : qstate) : qstate * out :=
   end.
 
 (* cur := q.list.cfirst(); out := cur.Get(); if cur.AtEnd() { return out, false }
-   cur.Remove(); q.size--; if q.list.IsEmpty() { q.back = q.list.cfirst() }; return out, true *)
+   cur.Remove(); q.size--; if q.list.IsEmpty() { q.back = q.list.cfirst() }; return out, true
+   The three statements after the test run in source order on the locals (q.size, q.back). *)
+Definition qenv := (Z * link)%type.
+Definition pop_remove (e : qenv) (s : cst) : res cst qenv :=     (* cur.Remove() *)
+  bind (if called MlinkQueue.qpop_ncalls_remove then cur_remove s else Ok zero s) (fun _ s => Ok e s).
+Definition pop_size (e : qenv) (s : cst) : res cst qenv :=       (* q.size-- *)
+  Ok (MlinkQueue.qpop_size (fst e), snd e) s.
+Definition pop_reset (e : qenv) (s : cst) : res cst qenv :=      (* if q.list.IsEmpty() { q.back = q.list.cfirst() } *)
+  bind (list_is_empty (fst s)) (fun em s' =>
+  Ok (fst e, if MlinkQueue.qpop_reset em then Ptr O else snd e) s').
+
+Definition pop_body : list (qenv -> cst -> res cst qenv) :=
+  in_order [(MlinkQueue.qpop_remove_ord, pop_remove); (MlinkQueue.qpop_size_ord, pop_size);
+            (MlinkQueue.qpop_reset_ord, pop_reset)].
+
 Definition q_pop (q : qstate) : qstate * out :=
   match cur_get (cfirst (qheap q)) with
   | Ok v s =>
@@ -460,16 +547,8 @@ Definition q_pop (q : qstate) : qstate * out :=
     | Ok ae s =>
       if MlinkQueue.qpop_atend ae then ({| qheap := fst s; qback := qback q; qsize := qsize q |}, RValBool v MlinkQueue.qpop_ret_empty)
       else
-        match (if called MlinkQueue.qpop_ncalls_remove then cur_remove s else Ok zero s) with
-        | Ok _ s =>
-          let size := MlinkQueue.qpop_size (qsize q) in
-          match list_is_empty (fst s) with
-          | Ok e s' =>
-            ({| qheap := fst s';
-                qback := if MlinkQueue.qpop_reset e then Ptr O else qback q;
-                qsize := size |}, RValBool v MlinkQueue.qpop_ret_ok)
-          | r => qfail {| qheap := fst s; qback := qback q; qsize := size |} r
-          end
+        match seq_env pop_body (qsize q, qback q) s with
+        | Ok e s' => ({| qheap := fst s'; qback := snd e; qsize := fst e |}, RValBool v MlinkQueue.qpop_ret_ok)
         | r => qfail q r
         end
     | r => qfail q r
